@@ -137,10 +137,53 @@ def grid(ctx, fi, origins):
   SPS = nf.rat(E('seconds_per_step'))
   SST = nf.rat(E('sequence_start_time'))
   n = 0
+  # names that hold an *absolute* step: elements of self.steps (BasePerformance.steps starts counting at self.start_step)
+  abs_names = set()
+  for lp in ast.walk(fn):
+    if isinstance(lp, (ast.For, ast.comprehension)):
+      it, tg = lp.iter, lp.target
+      if isinstance(it, ast.Call) and dotted(it.func) == 'enumerate' and it.args and isinstance(tg, ast.Tuple) and len(tg.elts) == 2:
+        it, tg = it.args[0], tg.elts[1]
+      if norm_text(it) == 'self.steps' and isinstance(tg, ast.Name):
+        abs_names.add(tg.id)
+      if isinstance(it, ast.Call) and dotted(it.func) == 'zip' and isinstance(tg, ast.Tuple) and len(tg.elts) == len(it.args):
+        abs_names.update(t.id for a, t in zip(it.args, tg.elts) if norm_text(a) == 'self.steps' and isinstance(t, ast.Name))
+  stp = ctx.P.module('performance_lib').all_functions.get('BasePerformance.steps')
+  if stp is None or not any(isinstance(x, ast.Attribute) and x.attr in ('start_step', '_start_step') for x in ast.walk(stp.node)):
+    abs_names = set()      # self.steps is not (any more) counted from start_step
+  org_has_start = org is not None and any('start_step' in a for a in org.atoms()) if hasattr(org, 'atoms') else ('start_step' in repr(org))
   for st in U.walk_stmts(fn):
     for tgt, val, op in U.store_targets(st):
       if not (isinstance(tgt, ast.Attribute) and tgt.attr in ('start_time', 'end_time', 'time') and op == 'store' and val is not None):
         continue
+      # location-independent: the start step enters a rendered time exactly once
+      ex = U.expand_locals(fn, val, at=st)
+      refs = [x for x in ast.walk(ex) if (isinstance(x, ast.Name) and x.id in abs_names) or
+              (isinstance(x, ast.Attribute) and norm_text(x) in ('self.start_step', 'self._start_step'))]
+      # coefficient of start_step in the rendered time, in steps: an element of self.steps is (relative step + start_step)
+      total = None
+      try:
+        envs = dict((a, E('REL_%s + self.start_step' % a)) for a in abs_names)
+        b_ = nf.Builder(envs, attr_alias={'self._start_step': 'self.start_step'})
+        r = b_.rat(ex)
+        sps = b_.rat(U.expand_locals(fn, E('seconds_per_step'), at=st))
+        def coefficient(unit, atom):
+          """c such that r - c*unit no longer mentions atom (0 if r does not mention it; None if no small c works)"""
+          if atom not in r.atoms():
+            return 0
+          for c in (1, 2, 3):
+            if atom not in (r - nf.Rat(nf.Poly.const(c)) * unit).n.atoms():
+              return c
+          return None
+        c1 = coefficient(nf.rat(E('self.start_step')) * sps, 'self.start_step')
+        c2 = coefficient(nf.rat(E('sequence_start_time')), 'sequence_start_time') if org_has_start else 0
+        total = c1 + c2 if c1 is not None and c2 is not None else None
+      except (nf.NFError, ZeroDivisionError):
+        total = None
+      if total is not None and total >= 2:
+        ctx.ob('ORIGIN/start-step-once', fi, st, False, '%s = %s adds the start step %s times (%s%s): a sequence that does not start at step 0 is rendered late by start_step steps' % (
+            norm_text(tgt), norm_text(val), total, ', '.join(sorted(set(norm_text(x) + (' (an element of self.steps, counted from start_step)' if isinstance(x, ast.Name) else '') for x in refs))),
+            ' and sequence_start_time' if org_has_start and any(isinstance(x, ast.Name) and x.id == 'sequence_start_time' for x in ast.walk(ex)) else ''), construct='start_step enters a rendered time once', definite=True)
       txt = norm_text(val)
       if 'max_note_duration' in txt:
         continue       # documented optional truncation (default None), not on the identity path
